@@ -83,6 +83,9 @@ func Unwrap(block cipher.Block, cipherText []byte) ([]byte, error) {
 	// Initialize variables
 	a := make([]byte, 8)
 	n := (len(cipherText) / 8) - 1
+	if n < 1 {
+		return nil, errors.New("ciphertext must be at least 16 bytes long")
+	}
 
 	r := make([][]byte, n)
 	for i := range r {
